@@ -3,7 +3,7 @@
 use crate::engine::{Family, Property, Tier, Verdict};
 use crate::gen::{self, DocOpts, XEl};
 use crate::props::frontends::{http_post, run_cli, Server, CLI_BIN, SERVER_BIN};
-use crate::run::{transform, transform_bytes, ByteOutcome, Cfg, Outcome};
+use crate::run::{transform, ByteOutcome, Cfg, Outcome};
 use proptest::collection::vec;
 use proptest::prelude::*;
 use serde::{Deserialize, Serialize};
@@ -32,6 +32,9 @@ pub struct Req {
     pub cfg: usize,
     /// size of the pre-existing content of the output file (file-writing front-ends)
     pub prefill: u32,
+    /// the input file named on the command line does not exist (file-reading command front-ends): a failed transform
+    #[serde(default)]
+    pub missing: bool,
 }
 
 #[derive(Clone, Debug, Serialize, Deserialize)]
@@ -51,11 +54,14 @@ fn doc_strategy() -> impl Strategy<Value = String> {
             XEl::new("rect").a("xy", format!("{} {{{{randint(0, 50)}}}}", crate::run::num(x))).a("wh", crate::run::num(w)).a("text", "{{random()}}"),
             XEl::new("circle").a("cxy", "^@br").a("r", "{{1 + random() * 5}}"),
         ]).to_xml()),
-        2 => (0u8..5).prop_map(|k| match k {
+        3 => (0u8..7).prop_map(|k| match k {
             0 => "<svg><rect xy=\"#nope|h\" wh=\"3\"/></svg>".to_string(),
             1 => "<svg><rect wh=\"{{1 +}}\"/></svg>".to_string(),
             2 => "<svg><loop while=\"1\"><rect wh=\"1\"/></loop></svg>".to_string(),
             3 => "<svg><rect wh=\"3\"></svg>".to_string(),
+            // failures that only show once the whole document has been laid out and the prolog written
+            5 => "<!-- diagram: draft -->\n<svg width=\"wide\">\n  <rect wh=\"20 10\" text=\"broken\"/>\n</svg>".to_string(),
+            6 => "<?xml version=\"1.0\"?>\n<?keep this?>\n<svg height=\"1e\"><rect wh=\"4\"/></svg>".to_string(),
             _ => "<svg><reuse href=\"#missing\"/><rect id=\"a\" xy=\"#b|h\" wh=\"2\"/><rect id=\"b\" xy=\"#a|h\" wh=\"2\"/></svg>".to_string(),
         }),
         1 => (10usize..400).prop_map(|n| {
@@ -91,7 +97,7 @@ fn fam_history(t: Tier) -> BoxedStrategy<Case> {
             let nc = cfgs.len();
             let reqs = reqs
                 .into_iter()
-                .map(|(fe, d, c, prefill)| Req { fe, doc: (d as usize * nd) >> 8, cfg: if fe == Fe::Server { 0 } else { (c as usize * nc) >> 8 }, prefill })
+                .map(|(fe, d, c, prefill)| Req { fe, doc: (d as usize * nd) >> 8, cfg: if fe == Fe::Server { 0 } else { (c as usize * nc) >> 8 }, prefill, missing: matches!(fe, Fe::CliFileFile | Fe::CliFileStdout) && c % 8 == 3 })
                 .collect();
             Case { docs, cfgs, reqs, samefile, concurrent }
         })
@@ -153,10 +159,12 @@ fn exec(req: &Req, doc: &str, cfg: &Cfg, dir: &PathBuf, port: u16, uniq: usize, 
             Outcome::Err(k, m) => Obs { ok: false, bytes: vec![], note: format!("{k}: {m}") },
             Outcome::Panic(l, m) => return fail("panic", format!("{l}: {m}")),
         },
-        Fe::LibStream => match transform_bytes(doc.as_bytes(), cfg) {
-            ByteOutcome::Ok(b) => Obs { ok: true, bytes: b, note: String::new() },
-            ByteOutcome::Err(k, m) => Obs { ok: false, bytes: vec![], note: format!("{k}: {m}") },
-            ByteOutcome::Panic(l, m) => return fail("panic", format!("{l}: {m}")),
+        Fe::LibStream => match crate::run::transform_bytes_written(doc.as_bytes(), cfg) {
+            (ByteOutcome::Ok(b), _) => Obs { ok: true, bytes: b, note: String::new() },
+            // (the string function and the command's file output give nothing for a failed transform: so must the stream)
+            (ByteOutcome::Err(k, m), n) if n > 0 => return fail("partial-output-on-failure", format!("failed ({k}: {m}) after writing {n} bytes to the stream")),
+            (ByteOutcome::Err(k, m), _) => Obs { ok: false, bytes: vec![], note: format!("{k}: {m}") },
+            (ByteOutcome::Panic(l, m), _) => return fail("panic", format!("{l}: {m}")),
         },
         Fe::Server => {
             let path = format!("/api/transform?add_metadata={}", cfg.add_metadata);
@@ -186,7 +194,11 @@ fn exec(req: &Req, doc: &str, cfg: &Cfg, dir: &PathBuf, port: u16, uniq: usize, 
             let outp = dir.join(format!("out{uniq}.svg"));
             let mut args = cfg.cli_args();
             if from_file {
-                std::fs::write(&inp, doc).map_err(|e| ("machinery".to_string(), e.to_string()))?;
+                if req.missing {
+                    let _ = std::fs::remove_file(&inp);
+                } else {
+                    std::fs::write(&inp, doc).map_err(|e| ("machinery".to_string(), e.to_string()))?;
+                }
                 args.push(inp.to_string_lossy().to_string());
             } else {
                 args.push("-".into());
@@ -248,6 +260,8 @@ fn exec(req: &Req, doc: &str, cfg: &Cfg, dir: &PathBuf, port: u16, uniq: usize, 
             res?
         }
     };
+    let missing_input = Ref::Fail;
+    let expect = if req.missing && matches!(req.fe, Fe::CliFileFile | Fe::CliFileStdout) { &missing_input } else { expect };
     match (expect, obs.ok) {
         (Ref::Ok(want), true) => {
             if req.fe == Fe::Server && want.is_empty() {
@@ -316,8 +330,8 @@ impl Property for C07 {
         "C07"
     }
     fn rule(&self) -> String {
-        "cases = histories: 5-40 requests (front-end, document, config) over a small per-history pool of documents (succeeding, failing, random-function, large, fragment) and configs, front-ends = transform_str, transform_stream, svgdx file->file, file->stdout, stdin->file, stdin->stdout, POST /api/transform on a server process that lives across cases; \
-         each history is executed sequentially and (half of them) again in concurrent batches of 8 (library threads, parallel CLI processes writing into one directory, simultaneous connections to the one server). File-writing requests find a pre-existing output file (20 B .. 200 KB); the same-file part spells the output as the input (same path, ./, absolute, d/../, symlink, hard link). \
+        "cases = histories: 5-40 requests (front-end, document, config) over a small per-history pool of documents (succeeding, failing early and failing only after output has been started, random-function, large, fragment) and configs, front-ends = transform_str, transform_stream, svgdx file->file, file->stdout, stdin->file, stdin->stdout, POST /api/transform on a server process that lives across cases; \
+         each history is executed sequentially and (half of them) again in concurrent batches of 8 (library threads, parallel CLI processes writing into one directory, simultaneous connections to the one server). File-writing requests find a pre-existing output file (20 B .. 200 KB); one in eight file-reading command requests names an input file that does not exist (a failed transform: exit != 0 with a message); the same-file part spells the output as the input (same path, ./, absolute, d/../, symlink, hard link). \
          Oracle: reference R(doc,cfg) = one transform in a fresh process; every request's observable result equals R (bytes; exit 0 / 200 image/svg+xml) or, where R fails, is reported as failure (Err; exit != 0 with a message, empty stdout, pre-existing output byte-identical and no file created; 400 text/plain); same-file: exit != 0 and input unchanged. \
          Non-trivial = the history has >= 1 failing and >= 1 succeeding request, >= 2 front-ends and >= 2 distinct (doc,cfg) pairs; distinct by hash of the case."
             .into()
